@@ -2,6 +2,7 @@
 From Coq Require Import ZArith List Bool.
 Import ListNotations.
 From PV Require Import Model.Route Proofs.RouteProofs Proofs.Propagate.
+From PV Require Model.Device Proofs.DeviceProofs.
 Open Scope Z_scope.
 
 (* the chosen route is, among the routes covering the destination, one of greatest prefix length and, among those, of
@@ -51,6 +52,13 @@ Theorem c08_delivery_implies_open_path :
   bstate s' = bstate s /\
   forall n' p', In (n', p') del -> open_path node port K B wire open_hop accepts (bstate s) (key f) n p n' p'.
 Proof. exact delivered_implies_open_path. Qed.
+
+(* ... and the models of host, switch, router and firewall frame handling (Model/Device.v) do lower the TTL on every hop, so
+   for every wiring of such devices the propagation of a frame ends within TTL+1 levels *)
+Theorem c08_forwarding_ends_for_the_device_models : forall (wire : nat -> nat -> option (nat * nat)) k fuel1 fuel2 s n p f,
+  (Z.to_nat (Device.f_ttl f) < k)%nat -> (k <= fuel1)%nat -> (k <= fuel2)%nat ->
+  DeviceProofs.propagate wire fuel1 s n p f = DeviceProofs.propagate wire fuel2 s n p f.
+Proof. exact DeviceProofs.propagation_ends. Qed.
 
 (* non-vacuity: overlapping prefixes, a metric tie (first wins), default route as last resort *)
 Example c08_example :
